@@ -191,6 +191,7 @@ def demo_mutants(recs, verdicts):
 def main(argv=None):
     ck = common.Check("C01", argv)
     common.setup_repo_import()
+    gen.warm_process()
     gen.scramble_insertions(ck.rng)     # graphs are built by inserting edges in random order
     ck.model("FamiliesMC", "FamiliesMC_C01.cfg")
     recs = instances(ck)
